@@ -310,6 +310,11 @@ func natSlicesSort(c *callCtx) []cont {
 	q := func(x *Term) *Term { return App("perminv$"+sanitizeTag(newE.Name), SInt, x) }
 	st.assume(Forall([]*Term{j}, Implies(inr, And(Le(IntLit(0, SInt), p(j)), Lt(p(j), v.Len), Eq(Select(newE, j), Select(oldE, p(j))), Eq(q(p(j)), j)))))
 	st.assume(Forall([]*Term{j}, Implies(inr, And(Le(IntLit(0, SInt), q(j)), Lt(q(j), v.Len), Eq(p(q(j)), j), Eq(Select(newE, q(j)), Select(oldE, j))))))
+	if sh.Sort == SStr {
+		// sorted: no later element is smaller than an earlier one
+		i2 := BVar("i", SInt)
+		st.assume(Forall([]*Term{i2, j}, Implies(And(Le(IntLit(0, SInt), i2), Lt(i2, j), Lt(j, v.Len)), Not(App("strLess", SBool, Select(newE, j), Select(newE, i2))))))
+	}
 	return c.ret(nil)
 }
 
